@@ -243,9 +243,10 @@ def directed_cases(pid, start):
             out.append(C(0, ("bind", 1, leaf, bounds), True, ["r"], [11]))
     # mem_fun with a method declared in the trackable class / inherited from a non-trackable base
     for inh in (0, 1):
-        out.append(C(0, ("mem", 1, ["r"], inh), True, ["r"], [11]))
-        out.append(C(0, ("hide", -1, ("mem", 2, ["v"], inh)), True, ["v", "c"], [11, 22]))
-        out.append(C(0, ("bind", -1, ("mem", 3, ["c", "v"], inh), [("v", 44)]), True, ["c"], [11]))
+        for cst in (0, 1):
+            out.append(C(0, ("mem", 1, ["r"], inh, cst), True, ["r"], [11]))
+            out.append(C(0, ("hide", -1, ("mem", 2, ["v"], inh, cst)), True, ["v", "c"], [11, 22]))
+            out.append(C(0, ("bind", -1, ("mem", 3, ["c", "v"], inh, cst), [("v", 44)]), True, ["c"], [11]))
     # every adaptor under a deducing adaptor with a reference parameter (F2)
     inner = [("hr", leaf), ("retype", leaf, [("O", False)], True), ("br", leaf, 123), ("ec", leaf, 1500),
              ("c2", ("leaf", 2, 0), leaf, ("leaf", 3, 0)), ("c1", ("leaf", 2, 0), leaf), ("rr", leaf), ("to", leaf, [2]),
